@@ -15,12 +15,6 @@ DivOf(g) == g.div + (IF g.age = 4 THEN 1 ELSE 0)
 Fill(g) == IF g.solved THEN [solved |-> TRUE, fit |-> g.fit, age |-> g.age, div |-> DivOf(g), cplx |-> 5 + g.age,
                              wn |-> 4 + g.fit, wg |-> g.age, we |-> 10 * g.div + g.fit + 2]
            ELSE [solved |-> FALSE, fit |-> g.fit, age |-> g.age, div |-> DivOf(g), cplx |-> 6 + g.fit, wn |-> 0, wg |-> 0, we |-> 0]
-TrialsSet == UNION { [1..n -> Gens] : n \in 0..MaxGens }
-Init == \/ /\ kind = "empty" /\ series = <<>> /\ exper = <<>> /\ emitted = FALSE
-        \/ /\ kind = "series" /\ series \in UNION { [1..n -> Vals] : n \in 1..MaxLen } \cup LongSeries /\ exper = <<>> /\ emitted = FALSE
-        \/ /\ kind = "exper" /\ series = <<>> /\ emitted = FALSE
-           /\ \E n \in 1..MaxTrials : \E e \in [1..n -> TrialsSet] :
-                exper = [i \in 1..n |-> [j \in DOMAIN e[i] |-> Fill(e[i][j])]]
 \* longer series (the empirical-quantile index depends on the length: n * p crosses integers at other places than for n <= 6):
 \* three value patterns with repeats, in ascending, descending and scrambled order, for a spread of lengths
 LongLens == {7, 8, 9, 10, 11, 12, 13, 16, 25, 40}
@@ -29,6 +23,12 @@ Pat(k, i) == CASE k = 1 -> ((i * 7) % 11) - 3
                [] k = 3 -> -((i * i) % 13)
 LongSeries == { [i \in 1..n |-> Pat(k, i)] : n \in LongLens, k \in 1..3 }
               \cup { [i \in 1..n |-> Pat(2, n + 1 - i)] : n \in LongLens }
+TrialsSet == UNION { [1..n -> Gens] : n \in 0..MaxGens }
+Init == \/ /\ kind = "empty" /\ series = <<>> /\ exper = <<>> /\ emitted = FALSE
+        \/ /\ kind = "series" /\ series \in UNION { [1..n -> Vals] : n \in 1..MaxLen } \cup LongSeries /\ exper = <<>> /\ emitted = FALSE
+        \/ /\ kind = "exper" /\ series = <<>> /\ emitted = FALSE
+           /\ \E n \in 1..MaxTrials : \E e \in [1..n -> TrialsSet] :
+                exper = [i \in 1..n |-> [j \in DOMAIN e[i] |-> Fill(e[i][j])]]
 Emit == /\ ~emitted /\ emitted' = TRUE /\ UNCHANGED <<kind, series, exper>>
         /\ IF kind = "empty" THEN PrintT(ToJson(EmptySeries))
            ELSE IF kind = "series" THEN PrintT(ToJson([kind |-> "series", st |-> SeriesStats(series)]))
